@@ -258,3 +258,40 @@ Section Apply1.
       rewrite map_nth. rewrite seq_nth by assumption. reflexivity.
   Qed.
 End Apply1.
+
+(* apply1 as one fold over the filtered enumeration (used for the norm invariant) *)
+Section Apply1Fold.
+  Context {F : Type} (O : sops F).
+  Notation C := (C (F:=F)).
+  Lemma apply1_as_fold n q m st :
+    q < n -> length st = 2 ^ n ->
+    apply1 O q m st =
+    fold_left (gpair_step C (c0 O) (f0m O m) (f1m O m) (2 ^ q))
+              (blocks (2 * 2 ^ q) (fun j => j <? 2 ^ q) (2 ^ (n - q - 1))) st
+    /\ (forall i, In i (blocks (2 * 2 ^ q) (fun j => j <? 2 ^ q) (2 ^ (n - q - 1))) -> i + 2 ^ q < 2 ^ n).
+  Proof.
+    intros Hq Hlen. unfold apply1. cbv zeta.
+    set (s := 2 ^ q). assert (s_pos : 0 < s) by apply pow2_pos.
+    assert (Hdiv : 2 ^ n = 2 ^ (n - q - 1) * (2 * s)).
+    { unfold s. replace (2 * 2 ^ q) with (2 ^ (S q)) by (cbn; lia). rewrite <- Nat.pow_add_r. f_equal. lia. }
+    rewrite Hlen, Hdiv, Nat.div_mul by lia. set (nb := 2 ^ (n - q - 1)) in *.
+    split.
+    - rewrite (fold_left_ext' _ (fun acc b => fold_left (gpair_step C (c0 O) (f0m O m) (f1m O m) s)
+               (map (fun j => b * (2 * s) + j) (filter (fun j => j <? s) (seq 0 (2 * s)))) acc)).
+      2:{ intros x y. rewrite fold_left_map'.
+          assert (Hf : filter (fun j => j <? s) (seq 0 (2 * s)) = seq 0 s).
+          { replace (2 * s) with (s + s) by lia. rewrite seq_app, filter_app, filter_all, filter_none.
+            - apply app_nil_r.
+            - intros j Hj. apply in_seq in Hj. apply Nat.ltb_ge. lia.
+            - intros j Hj. apply in_seq in Hj. apply Nat.ltb_lt. lia. }
+          rewrite Hf. reflexivity. }
+      rewrite (fold_left_flat_map (gpair_step C (c0 O) (f0m O m) (f1m O m) s)
+               (fun b => map (fun j => b * (2 * s) + j) (filter (fun j => j <? s) (seq 0 (2 * s))))).
+      reflexivity.
+    - intros i Hi. assert (W : 0 < 2 * s) by lia. apply (In_blocks (2 * s) W) in Hi.
+      destruct Hi as [Hi1 Hi2]. apply Nat.ltb_lt in Hi2.
+      assert (i = 2 * s * (i / (2 * s)) + i mod (2 * s)) by (apply Nat.div_mod; lia).
+      assert (i / (2 * s) < nb) by (apply Nat.div_lt_upper_bound; lia).
+      nia.
+  Qed.
+End Apply1Fold.
